@@ -635,29 +635,92 @@ var rlDispatcherEdits = []struct{ name, from, to string }{
 	{"deliver route removed (not the last)", "/e {\n  deliver \"http://t3.example.com/c\" {\n  }\n}\n", ""},
 }
 
+// What the queue store and the Admin server are built from at start (limits, retention, publish policy): every value is
+// stated in the base and changed alone.
+const rlSettingsBase = `pull_api {
+  auth token raw:t
+}
+queue_limits {
+  max_depth 500
+  drop_policy reject
+}
+queue_retention {
+  max_age 2d
+  prune_interval 3m
+}
+delivered_retention {
+  max_age 6h
+}
+dlq_retention {
+  max_age 9d
+  max_depth 700
+}
+defaults {
+  publish_policy {
+    direct on
+    managed on
+    allow_pull_routes on
+    allow_deliver_routes on
+    require_actor off
+    require_request_id off
+    fail_closed off
+    actor_allow "ci-bot"
+    actor_prefix "deploy-"
+  }
+}
+/p {
+  pull { path /pull/p }
+}
+`
+
+var rlSettingsEdits = []struct{ name, from, to string }{
+	{"queue_limits.max_depth", "max_depth 500", "max_depth 501"},
+	{"queue_limits.drop_policy", "drop_policy reject", "drop_policy drop_oldest"},
+	{"queue_retention.max_age", "max_age 2d", "max_age 3d"},
+	{"queue_retention.prune_interval", "prune_interval 3m", "prune_interval 4m"},
+	{"delivered_retention.max_age", "max_age 6h", "max_age 7h"},
+	{"delivered_retention.max_age off", "max_age 6h", "max_age off"},
+	{"dlq_retention.max_age", "max_age 9d", "max_age 8d"},
+	{"dlq_retention.max_depth", "max_depth 700", "max_depth 0"},
+	{"defaults.publish_policy.direct", "direct on", "direct off"},
+	{"defaults.publish_policy.managed", "managed on", "managed off"},
+	{"defaults.publish_policy.allow_pull_routes", "allow_pull_routes on", "allow_pull_routes off"},
+	{"defaults.publish_policy.allow_deliver_routes", "allow_deliver_routes on", "allow_deliver_routes off"},
+	{"defaults.publish_policy.require_actor", "require_actor off", "require_actor on"},
+	{"defaults.publish_policy.require_request_id", "require_request_id off", "require_request_id on"},
+	{"defaults.publish_policy.fail_closed", "fail_closed off", "fail_closed on"},
+	{"defaults.publish_policy.actor_allow", `actor_allow "ci-bot"`, `actor_allow "ci-bot2"`},
+	{"defaults.publish_policy.actor_prefix", `actor_prefix "deploy-"`, `actor_prefix "release-"`},
+}
+
 func rlDispatcherRestartSweep(dir string, emit func(interface{})) {
+	rlRestartSweepOver(dir, emit, "dispatcher", rlDispatcherBase, rlDispatcherEdits, 2000)
+	rlRestartSweepOver(dir, emit, "dispatcher-settings", rlSettingsBase, rlSettingsEdits, 3000)
+}
+
+func rlRestartSweepOver(dir string, emit func(interface{}), stage, rlDispatcherBase string, rlDispatcherEdits []struct{ name, from, to string }, caseBase int) {
 	cfgPath := filepath.Join(dir, "Hookaidofile.disp")
 	defer os.Remove(cfgPath)
 	if _, err := compileText(rlDispatcherBase); err != nil {
-		emit(map[string]interface{}{"k": "cfgerror", "stage": "dispatcher-base", "err": err.Error(), "text": rlDispatcherBase})
+		emit(map[string]interface{}{"k": "cfgerror", "stage": stage + "-base", "err": err.Error(), "text": rlDispatcherBase})
 		return
 	}
 	// control: the same configuration with an edit that IS applied live (a pull route's path) reloads
 	if rt, err := newRlRuntime(rlDispatcherBase); err == nil {
 		_ = os.WriteFile(cfgPath, []byte(strings.Replace(rlDispatcherBase, "path /pull/p", "path /pull/p2", 1)), 0o600)
 		if !rt.Reload(cfgPath) {
-			emit(map[string]interface{}{"k": "cfgerror", "stage": "dispatcher-control", "err": "a live-reloadable edit of the base configuration was refused", "text": rlDispatcherBase})
+			emit(map[string]interface{}{"k": "cfgerror", "stage": stage + "-control", "err": "a live-reloadable edit of the base configuration was refused", "text": rlDispatcherBase})
 			return
 		}
 	}
 	for i, e := range rlDispatcherEdits {
 		if strings.Count(rlDispatcherBase, e.from) != 1 {
-			emit(map[string]interface{}{"k": "cfgerror", "stage": "dispatcher-edit:" + e.name, "err": "edit does not apply exactly once", "text": e.from})
+			emit(map[string]interface{}{"k": "cfgerror", "stage": stage + "-edit:" + e.name, "err": "edit does not apply exactly once", "text": e.from})
 			continue
 		}
 		newText := strings.Replace(rlDispatcherBase, e.from, e.to, 1)
 		if _, err := compileText(newText); err != nil {
-			emit(map[string]interface{}{"k": "cfgerror", "stage": "dispatcher-edit:" + e.name, "err": err.Error(), "text": newText})
+			emit(map[string]interface{}{"k": "cfgerror", "stage": stage + "-edit:" + e.name, "err": err.Error(), "text": newText})
 			continue
 		}
 		rt, err := newRlRuntime(rlDispatcherBase)
@@ -666,7 +729,7 @@ func rlDispatcherRestartSweep(dir string, emit func(interface{})) {
 		}
 		_ = os.WriteFile(cfgPath, []byte(newText), 0o600)
 		ok := rt.Reload(cfgPath)
-		emit(map[string]interface{}{"k": "reload", "case": 2000 + i, "fail": "restart", "restartEdit": e.name, "oldText": rlDispatcherBase, "newText": newText,
+		emit(map[string]interface{}{"k": "reload", "case": caseBase + i, "fail": "restart", "restartEdit": e.name, "oldText": rlDispatcherBase, "newText": newText,
 			"probes": []string{}, "before": []string{}, "after": []string{}, "n1": []string{}, "n2": []string{}, "ok": ok})
 	}
 }
